@@ -1230,7 +1230,7 @@ def shuffle(lst, random=None):
 
     '''
 
-    _libsc3.main._rgen.shuffle(lst, random)
+    _libsc3.main._rgen.shuffle(lst)  # random was removed in Python 3.11.
 
 def scramble(lst, random=None):
     '''Return a new shuffled list from `lst`.
@@ -1241,7 +1241,7 @@ def scramble(lst, random=None):
     '''
 
     lst = lst.copy()
-    _libsc3.main._rgen.shuffle(lst, random)
+    _libsc3.main._rgen.shuffle(lst)  # random was removed in Python 3.11.
     return lst
 
 # mirror, mirror1, mirror2  # one mirror with mode.
